@@ -222,35 +222,40 @@ theorem Clears.bound {s s' : State α} (h : Clears s s') (b : Bound wb s) : Boun
 def ResetPost (wb : Workbook) (P : Nat → Prop) (s : State α) (k : Nat) (s' : State α) : Prop :=
   Clears s s' ∧ ∀ m, Viol wb P s' m → Viol wb P s m ∧ m ≠ k
 
-theorem resetLoop_spec {P : Nat → Prop} (r : Nat → State α → State α) :
+theorem resetLoopG_spec {P : Nat → Prop} (pass : Nat → Bool) (r : Nat → State α → State α) :
     ∀ (L : List Nat) (s : State α),
-      (∀ j, j ∈ L → ∀ st : State α, Bound wb st → st.cache j ≠ none → ResetPost wb P st j (r j st)) → Bound wb s →
-      Clears s (L.foldl (resetStep r) s) ∧
-      ∀ m, Viol wb P (L.foldl (resetStep r) s) m → Viol wb P s m ∧ m ∉ L := by
+      (∀ j, j ∈ L → ∀ st : State α, Bound wb st → (st.cache j ≠ none ∨ pass j = true) →
+        ResetPost wb P st j (r j st)) → Bound wb s →
+      Clears s (L.foldl (resetStepG pass r) s) ∧
+      ∀ m, Viol wb P (L.foldl (resetStepG pass r) s) m → Viol wb P s m ∧ m ∉ L := by
   intro L
   induction L with
   | nil => intro s _ _; exact ⟨Clears.refl s, fun m h => ⟨h, by simp⟩⟩
   | cons a L ih =>
     intro s hr hb
-    have step1 : ResetPost wb P s a (resetStep r s a) := by
+    have step1 : ResetPost wb P s a (resetStepG pass r s a) := by
       cases hc : s.cache a with
       | none =>
-        have : resetStep r s a = s := by simp [resetStep, hc]
-        rw [this]
-        exact ⟨Clears.refl s, fun m h => ⟨h, fun e => by rw [e] at h; exact h.1 hc⟩⟩
+        by_cases hp : pass a = true
+        · have : resetStepG pass r s a = r a s := by simp [resetStepG, hc, hp]
+          rw [this]
+          exact hr a (by simp) s hb (Or.inr hp)
+        · have : resetStepG pass r s a = s := by simp [resetStepG, hc, hp]
+          rw [this]
+          exact ⟨Clears.refl s, fun m h => ⟨h, fun e => by rw [e] at h; exact h.1 hc⟩⟩
       | some v =>
-        have : resetStep r s a = r a s := by simp [resetStep, hc]
+        have : resetStepG pass r s a = r a s := by simp [resetStepG, hc]
         rw [this]
-        exact hr a (by simp) s hb (by rw [hc]; simp)
-    have q := ih (resetStep r s a) (fun j hj => hr j (by simp [hj])) (step1.1.bound hb)
+        exact hr a (by simp) s hb (Or.inl (by rw [hc]; simp))
+    have q := ih (resetStepG pass r s a) (fun j hj => hr j (by simp [hj])) (step1.1.bound hb)
     simp only [List.foldl_cons]
     refine ⟨step1.1.trans q.1, fun m hm => ?_⟩
     have h2 := q.2 m hm
     have h3 := step1.2 m h2.1
     exact ⟨h3.1, by simp [h3.2, h2.2]⟩
 
-theorem resetF_spec (hwf : WF wb) (P : Nat → Prop) :
-    ∀ fuel k (s : State α), wb.n ≤ k + fuel → Bound wb s → ResetPost wb P s k (resetF wb fuel k s) := by
+theorem resetG_spec (hwf : WF wb) (P : Nat → Prop) (pass : Nat → Bool) :
+    ∀ fuel k (s : State α), wb.n ≤ k + fuel → Bound wb s → ResetPost wb P s k (resetG wb pass fuel k s) := by
   intro fuel
   induction fuel with
   | zero =>
@@ -260,47 +265,132 @@ theorem resetF_spec (hwf : WF wb) (P : Nat → Prop) :
     omega
   | succ fuel ih =>
     intro k s hk hb
-    cases hc : s.cache k with
-    | none =>
-      have : resetF wb (fuel+1) k s = s := by simp [resetF, hc]
-      rw [this]
-      exact ⟨Clears.refl s, fun m h => ⟨h, fun e => by rw [e] at h; exact h.1 hc⟩⟩
-    | some v =>
-      have : resetF wb (fuel+1) k s =
-          (succs wb k).foldl (resetStep (resetF wb fuel)) { s with cache := update s.cache k none } := by
-        simp [resetF, hc]
-      rw [this]
-      generalize hs1 : ({ s with cache := update s.cache k none } : State α) = s1
-      have hcl : Clears s s1 := by
-        subst hs1
-        refine ⟨rfl, rfl, rfl, fun m => ?_⟩
-        by_cases hm : m = k
-        · left; simp [hm]
-        · right; simp [update_ne _ _ hm]
-      have hb1 : Bound wb s1 := hcl.bound hb
-      have loop := resetLoop_spec (wb := wb) (P := P) (resetF wb fuel) (succs wb k) s1
-        (fun j hj st hst _ => by
-          have hj' := mem_succs.mp hj
-          have := hwf.lt j k hj'.2
-          exact ih j st (by omega) hst) hb1
-      refine ⟨hcl.trans loop.1, fun m hm => ?_⟩
-      obtain ⟨hv1, hnot⟩ := loop.2 m hm
-      -- a violation in s1 is an old one or a cached successor of k
-      have hmk : m ≠ k := fun e => by
-        subst hs1; rw [e] at hv1; exact hv1.1 (by simp)
-      have hcm : s.cache m ≠ none := by
-        have := hv1.1; subst hs1; simpa [update_ne _ _ hmk] using this
-      obtain ⟨j, hj, hj2⟩ := hv1.2
-      refine ⟨⟨hcm, j, hj, ?_⟩, hmk⟩
-      rcases hj2 with hp | ⟨hkj, hcj⟩
-      · exact Or.inl hp
-      · right
-        refine ⟨hkj, ?_⟩
-        by_cases hjk : j = k
-        · exfalso
-          apply hnot
-          exact mem_succs.mpr ⟨hb m hcm, hjk ▸ hj⟩
-        · subst hs1; simpa [update_ne _ _ hjk] using hcj
+    have : resetG wb pass (fuel+1) k s =
+        (succs wb k).foldl (resetStepG pass (resetG wb pass fuel)) { s with cache := update s.cache k none } := by
+      simp [resetG]
+    rw [this]
+    generalize hs1 : ({ s with cache := update s.cache k none } : State α) = s1
+    have hcl : Clears s s1 := by
+      subst hs1
+      refine ⟨rfl, rfl, rfl, fun m => ?_⟩
+      by_cases hm : m = k
+      · left; simp [hm]
+      · right; simp [update_ne _ _ hm]
+    have hb1 : Bound wb s1 := hcl.bound hb
+    have loop := resetLoopG_spec (wb := wb) (P := P) pass (resetG wb pass fuel) (succs wb k) s1
+      (fun j hj st hst _ => by
+        have hj' := mem_succs.mp hj
+        have := hwf.lt j k hj'.2
+        exact ih j st (by omega) hst) hb1
+    refine ⟨hcl.trans loop.1, fun m hm => ?_⟩
+    obtain ⟨hv1, hnot⟩ := loop.2 m hm
+    -- a violation in s1 is an old one or a cached successor of k
+    have hmk : m ≠ k := fun e => by
+      subst hs1; rw [e] at hv1; exact hv1.1 (by simp)
+    have hcm : s.cache m ≠ none := by
+      have := hv1.1; subst hs1; simpa [update_ne _ _ hmk] using this
+    obtain ⟨j, hj, hj2⟩ := hv1.2
+    refine ⟨⟨hcm, j, hj, ?_⟩, hmk⟩
+    rcases hj2 with hp | ⟨hkj, hcj⟩
+    · exact Or.inl hp
+    · right
+      refine ⟨hkj, ?_⟩
+      by_cases hjk : j = k
+      · exfalso
+        apply hnot
+        exact mem_succs.mpr ⟨hb m hcm, hjk ▸ hj⟩
+      · subst hs1; simpa [update_ne _ _ hjk] using hcj
+
+/-- the successor loop of the code (pass-through of empty range nodes) -/
+theorem resetLoop_spec {P : Nat → Prop} (r : Nat → State α → State α) :
+    ∀ (L : List Nat) (s : State α),
+      (∀ j, j ∈ L → ∀ st : State α, Bound wb st → (st.cache j ≠ none ∨ isRange wb j = true) →
+        ResetPost wb P st j (r j st)) → Bound wb s →
+      Clears s (L.foldl (resetStep wb r) s) ∧
+      ∀ m, Viol wb P (L.foldl (resetStep wb r) s) m → Viol wb P s m ∧ m ∉ L :=
+  resetLoopG_spec (isRange wb) r
+
+theorem resetF_spec (hwf : WF wb) (P : Nat → Prop) :
+    ∀ fuel k (s : State α), wb.n ≤ k + fuel → Bound wb s → ResetPost wb P s k (resetF wb fuel k s) :=
+  resetG_spec hwf P (isRange wb)
+
+/-! ### what a walk can clear: only dependants of its starting node -/
+
+/-- `m` is `k` or depends (transitively) on `k` -/
+inductive Desc (wb : Workbook) : Nat → Nat → Prop where
+  | refl (k : Nat) : Desc wb k k
+  | step {k j m : Nat} : Desc wb k j → j ∈ wb.deps m → Desc wb k m
+
+theorem Desc.trans {k j m : Nat} (h1 : Desc wb k j) (h2 : Desc wb j m) : Desc wb k m := by
+  induction h2 with
+  | refl => exact h1
+  | step _ hm ih => exact Desc.step ih hm
+
+theorem resetLoopG_desc (pass : Nat → Bool) (r : Nat → State α → State α) :
+    ∀ (L : List Nat) (s : State α),
+      (∀ j, j ∈ L → ∀ (st : State α) m, (r j st).cache m ≠ st.cache m → Desc wb j m) →
+      ∀ m, (L.foldl (resetStepG pass r) s).cache m ≠ s.cache m → ∃ j, j ∈ L ∧ Desc wb j m := by
+  intro L
+  induction L with
+  | nil => intro s _ m h; exact absurd rfl h
+  | cons a L ih =>
+    intro s hr m hm
+    simp only [List.foldl_cons] at hm
+    by_cases h1 : (resetStepG pass r s a).cache m = s.cache m
+    · rw [← h1] at hm
+      obtain ⟨j, hj, hd⟩ := ih (resetStepG pass r s a) (fun j hj => hr j (by simp [hj])) m hm
+      exact ⟨j, by simp [hj], hd⟩
+    · refine ⟨a, by simp, ?_⟩
+      unfold resetStepG at h1
+      split at h1
+      · exact hr a (by simp) s m h1
+      · split at h1
+        · exact hr a (by simp) s m h1
+        · exact absurd rfl h1
+
+theorem resetG_desc (pass : Nat → Bool) :
+    ∀ fuel k (s : State α) m, (resetG wb pass fuel k s).cache m ≠ s.cache m → Desc wb k m := by
+  intro fuel
+  induction fuel with
+  | zero => intro k s m h; exact absurd rfl h
+  | succ fuel ih =>
+    intro k s m hm
+    by_cases hmk : m = k
+    · rw [hmk]; exact Desc.refl k
+    · have hrw : resetG wb pass (fuel+1) k s =
+          (succs wb k).foldl (resetStepG pass (resetG wb pass fuel)) { s with cache := update s.cache k none } := by
+        simp [resetG]
+      rw [hrw] at hm
+      have h1 : ({ s with cache := update s.cache k none } : State α).cache m = s.cache m := by
+        simp [update_ne _ _ hmk]
+      rw [← h1] at hm
+      obtain ⟨j, hj, hd⟩ := resetLoopG_desc (wb := wb) pass (resetG wb pass fuel) (succs wb k) _
+        (fun j _ st m' h => ih j st m' h) m hm
+      exact Desc.trans (Desc.step (Desc.refl k) (mem_succs.mp hj).2) hd
+
+theorem desc_has_dep {i j m : Nat} (hi : i ∈ wb.deps j) (h : Desc wb j m) : wb.deps m ≠ [] := by
+  cases h with
+  | refl => intro e; rw [e] at hi; cases hi
+  | step _ hm => intro e; rw [e] at hm; cases hm
+
+/-- in a state without violations (poison = "is `i`"), every (transitive) dependant of `i` is empty -/
+theorem desc_cleared (hwf : WF wb) {i : Nat} {X : State α} (hnv : ∀ m, ¬ Viol wb (fun j => j = i) X m)
+    {j m : Nat} (hi : i ∈ wb.deps j) (h : Desc wb j m) : X.cache m = none := by
+  induction h with
+  | refl =>
+    apply Classical.byContradiction
+    intro hc
+    exact hnv j ⟨hc, i, hi, Or.inl rfl⟩
+  | step hd hm ih =>
+    rename_i j' m'
+    apply Classical.byContradiction
+    intro hc
+    have hk : wb.kind j' ≠ .input := fun e => desc_has_dep hi hd (hwf.input j' e)
+    exact hnv m' ⟨hc, j', hm, Or.inr ⟨hk, ih⟩⟩
+
+theorem State.ext' {a b : State α} (h1 : a.inp = b.inp) (h2 : a.cache = b.cache) (h3 : a.built = b.built)
+    (h4 : a.stored = b.stored) : a = b := by
+  cases a; cases b; simp_all
 
 /-! ### setValue -/
 
@@ -316,7 +406,7 @@ theorem Closed.noViol {s : State α} (h : Closed wb s) (m : Nat) : ¬ Viol wb (f
 /-- effect of an accepted, effective write: the walk leaves no cached node that reads `i` or an emptied node -/
 theorem setWalk_spec (hwf : WF wb) (hl : Local wb f) {s : State α} (hinv : Inv wb f s) (i : Nat) (v : α) :
     let s1 : State α := { s with inp := update s.inp i v, stored := fun _ => none }
-    let s' := (succs wb i).foldl (resetStep (resetF wb wb.n)) s1
+    let s' := (succs wb i).foldl (resetStep wb (resetF wb wb.n)) s1
     Inv wb f s' ∧ s'.inp = update s.inp i v ∧ s'.built = s.built := by
   intro s1 s'
   have hb1 : Bound wb s1 := hinv.closed.bound
@@ -406,6 +496,60 @@ theorem setValue_built (hwf : WF wb) (hl : Local wb f) (eqv : α → α → Bool
     split
     · rfl
     · exact (setWalk_spec hwf hl hinv i v).2.2
+  · rfl
+
+/-! ### the walk with and without the pass-through of empty range nodes -/
+
+theorem walk_unique (hwf : WF wb) {i : Nat} {s1 A B : State α} (ca : Clears s1 A) (cb : Clears s1 B)
+    (na : ∀ m, ¬ Viol wb (fun j => j = i) A m) (nb : ∀ m, ¬ Viol wb (fun j => j = i) B m)
+    (pa : ∀ m, A.cache m ≠ s1.cache m → ∃ j, j ∈ succs wb i ∧ Desc wb j m)
+    (pb : ∀ m, B.cache m ≠ s1.cache m → ∃ j, j ∈ succs wb i ∧ Desc wb j m) : A = B := by
+  apply State.ext' (ca.inp.trans cb.inp.symm) _ (ca.built.trans cb.built.symm) (ca.stored.trans cb.stored.symm)
+  funext m
+  by_cases ha : A.cache m = s1.cache m
+  · by_cases hb : B.cache m = s1.cache m
+    · rw [ha, hb]
+    · obtain ⟨j, hj, hd⟩ := pb m hb
+      have h0 := desc_cleared hwf na (mem_succs.mp hj).2 hd
+      rcases cb.cache m with h | h
+      · rw [h0, h]
+      · exact absurd h hb
+  · obtain ⟨j, hj, hd⟩ := pa m ha
+    have h0 := desc_cleared hwf nb (mem_succs.mp hj).2 hd
+    rcases ca.cache m with h | h
+    · rw [h, h0]
+    · exact absurd h ha
+
+/-- facts about the top-level walk of `setValue`, for any pass-through rule -/
+theorem walkG_facts (hwf : WF wb) (pass : Nat → Bool) {s : State α} (hc : Closed wb s) (i : Nat) (v : α) :
+    let s1 : State α := { s with inp := update s.inp i v, stored := fun _ => none }
+    let X := (succs wb i).foldl (resetStepG pass (resetG wb pass wb.n)) s1
+    Clears s1 X ∧ (∀ m, ¬ Viol wb (fun j => j = i) X m) ∧
+      ∀ m, X.cache m ≠ s1.cache m → ∃ j, j ∈ succs wb i ∧ Desc wb j m := by
+  intro s1 X
+  have hb1 : Bound wb s1 := hc.bound
+  have loop := resetLoopG_spec (wb := wb) (P := fun j => j = i) pass (resetG wb pass wb.n) (succs wb i) s1
+    (fun j _ st hst _ => resetG_spec hwf _ pass wb.n j st (by omega) hst) hb1
+  refine ⟨loop.1, fun m hm => ?_, ?_⟩
+  · obtain ⟨hv1, hnot⟩ := loop.2 m hm
+    obtain ⟨hcm, j, hj, hj2⟩ := hv1
+    rcases hj2 with hp | ⟨hkj, hcj⟩
+    · exact hnot (mem_succs.mpr ⟨hb1 m hcm, hp ▸ hj⟩)
+    · exact hc.noViol m ⟨hcm, j, hj, Or.inr ⟨hkj, hcj⟩⟩
+  · exact resetLoopG_desc (wb := wb) pass (resetG wb pass wb.n) (succs wb i) s1
+      (fun j _ st m h => resetG_desc pass wb.n j st m h)
+
+/-- on a state that satisfies `Closed` (part of `Inv`) the walk of the code (pass-through of empty range nodes,
+    f32e634) and the walk before it produce the same state: the fix is behaviour-preserving there -/
+theorem setValue_eq_old (hwf : WF wb) (eqv : α → α → Bool) {s : State α} (hc : Closed wb s) (i : Nat) (v : α) :
+    setValue wb eqv i v s = setValueOld wb eqv i v s := by
+  unfold setValue setValueOld
+  split
+  · split
+    · rfl
+    · have a := walkG_facts hwf (isRange wb) hc i v
+      have b := walkG_facts hwf (fun _ => false) hc i v
+      exact walk_unique hwf a.1 b.1 a.2.1 b.2.1 a.2.2 b.2.2
   · rfl
 
 /-! ### build on demand -/
